@@ -88,6 +88,21 @@ pub fn pool(seed: u64, scratch: &std::path::Path, write_files: bool) -> Vec<Prog
     ] {
         v.push(Prog { name: n.to_string(), kind: b'S', text: t, dirs: vec![] });
     }
+    // near misses: failing programs whose unknown name is the beginning of several known names (functions,
+    // mnemonics, directives, devices). An error text that offers candidates must offer the same ones every time.
+    for (n, t) in [
+        ("near-function-lo", "ldi r16, lo(1)\n"), ("near-function-l", ".dw l(1)\n"), ("near-function-h", "ldi r16, h(0x1234)\n"), ("near-function-b", ".db b(1)\n"),
+        ("near-function-by", ".db by(1)\n"), ("near-function-byte", ".db byte(0x123456)\n"), ("near-function-e", ".dw e(3)\n"), ("near-function-lw", ".dw lw(1), hw(1)\n"),
+        ("near-mnemonic-br", "br pc+1\n"), ("near-mnemonic-s", "s r1\n"), ("near-mnemonic-ad", "ad r1, r2\n"), ("near-mnemonic-ro", "ro r1\n"), ("near-mnemonic-c", "c r1, r2\n"),
+        ("near-mnemonic-sb", "sb r1, 1\n"), ("near-mnemonic-m", "m r1, r2\n"), ("near-mnemonic-f", "f r16, r17\n"), ("near-mnemonic-l", "l r1, X\n"), ("near-mnemonic-e", "e\n"), ("near-mnemonic-brb", "brb 1, pc\n"),
+        ("near-directive-d", ".d 1\n"), ("near-directive-e", ".e\n"), ("near-directive-i", ".i 1\n"), ("near-directive-in", ".in \"x\"\n"), ("near-directive-de", ".de a = r1\n"),
+        ("near-directive-en", ".en\n"), ("near-directive-end", ".end\n"), ("near-directive-if-unclosed", ".ifd X\n"), ("near-directive-m", ".m x\n"), ("near-directive-un", ".un a\n"),
+        ("near-device-atmega", ".device ATmega\n"), ("near-device-attiny", ".device ATtiny\n"), ("near-device-atmega1", ".device ATmega1\n"), ("near-device-at90s", ".device AT90S\n"), ("near-device-at", ".device AT\n"), ("near-device-attiny1", ".device ATtiny1\nnop\n"),
+        ("near-register-r3x", "mov r3x, r1\n"), ("near-register-r", "mov r, r1\n"), ("near-index-w", "ld r1, W\n"), ("near-symbol-among-similar", ".equ value_a = 1\n.equ value_b = 2\n.equ value_c = 3\n.dw value_\n"),
+        ("near-macro-among-similar", ".macro load_a\nnop\n.endm\n.macro load_b\nnop\n.endm\n.macro load_c\nnop\n.endm\nload_ r1\n"), ("near-alias-among-similar", ".def tmp_a = r1\n.def tmp_b = r2\n.def tmp_c = r3\ninc tmp_\n"),
+    ] {
+        v.push(Prog { name: n.to_string(), kind: b'S', text: t.to_string(), dirs: vec![] });
+    }
     // generated programs: the generators number their names per program, so names collide across programs
     for i in 0..30u64 {
         let mut rng = Rng::for_case(seed, 0xC17, i);
